@@ -20,10 +20,16 @@ TRUSTED_EXTRA = ["harness/cmd/proxy/relay.go (JSON-message-aware TCP relay) is t
 
 def run(ctx):
     thorough = ctx["tier"] == "thorough"
-    args = ["-seed", ctx["seed"], "-n", 40, "-ntx", 200, "-faults", 60, "-large", 200000]
+    args = ["-seed", ctx["seed"], "-n", 40, "-ntx", 200, "-faults", 60, "-large", 200000, "-retain", 120, "-maxsec", 240]
     if thorough:
-        args = ["-seed", ctx["seed"], "-n", 400, "-ntx", 3000, "-faults", 1500, "-large", 3000000]
-    rc, out, dt = vlib.run_harness("proxy", args, timeout=2400)
+        args = ["-seed", ctx["seed"], "-n", 400, "-ntx", 3000, "-faults", 1500, "-large", 3000000, "-retain", 1200, "-maxsec", 2000]
+    rc, out, dt = vlib.run_harness("proxy", args, timeout=2400 if thorough else 600)
+    if rc in (3, 124):
+        # the harness's own watchdog (-maxsec: goroutine dump, exit 3) or the timeout: the application-side socket client has
+        # no timeout by design, a stalled endpoint blocks it for ever (seen once on a machine shared with other processes using
+        # ephemeral ports); one retry, the first attempt's goroutine dump is kept in the notes
+        ctx["notes"].append("proxy harness stalled once (rc=%d), retried: %s" % (rc, out[-600:]))
+        rc, out, dt = vlib.run_harness("proxy", args, timeout=2400 if thorough else 600)
     if rc != 0:
         return dict(findings=[dict(cls="harness-crash", key="proxy rc=%d" % rc, detail=out[-1500:])], coverage={})
     ncases, diffs, raw = vlib.run_model(out, timeout=2400)
@@ -34,7 +40,7 @@ def run(ctx):
         if l.startswith("V "):
             t = l.split(None, 3)
             cls, key = t[2], (t[3] if len(t) > 3 else "")
-            sig = (cls, key[:60])
+            sig = (cls, "" if cls.startswith("content-changed-after-later-call") or cls.startswith("content-aliased") else key[:60])
             if sig not in seen:
                 seen.add(sig)
                 findings.append(dict(cls=cls, key=key[:300], detail=l[:800]))
@@ -60,6 +66,12 @@ def run(ctx):
             distinct.add(("C", l.split("=>")[0]))
             if len(samples) < 6 and "flips" in l:
                 samples.append(l[:200])
+        elif l.startswith("PX K "):
+            hist["retained-call"] = hist.get("retained-call", 0) + 1
+            distinct.add(("K",) + tuple(l.split()[3:5]))
+        elif l.startswith("PX A "):
+            k = "alias-probe/" + "/".join(l.split()[2:4]) + "/" + l.split()[-1]
+            hist[k] = hist.get(k, 0) + 1
         elif l.startswith("PX T "):
             hist["tx-run"] = hist.get("tx-run", 0) + 1
     # the inputs of the three repaired findings must still be generated (they are regression inputs now)
@@ -76,7 +88,13 @@ def run(ctx):
                     "sent through SocketAppProxy -> relay -> SocketBabbleProxy and through InmemProxy; handler arguments and returned values compared "
                     "field by field on both ends and with the model's JSON mapping (blocks up to 300-byte strings); (2) transactions (nil, empty, "
                     "binary, large) through SocketBabbleProxy -> relay -> SocketAppProxy and InmemProxy, sequentially and from 3 concurrent clients, "
-                    "order per client by serial; invalid-UTF-8 operator strings through peers.NewPeer (regression input of b2c4118, NewPeer compared with the model's "
+                    "order per client by serial; RETENTION: the same sequence of commits (back-to-back responses that both carry 1..5 receipts, "
+                    "fewer / more / as many as the previous one, empty ones in between), snapshots / restores / transactions with payloads shorter after "
+                    "longer, state changes, against the socket and the in-process attachment; every value a call returned or delivered (commit response, "
+                    "snapshot, the block / restore payload / state the handler was given, the transaction received from SubmitCh; also the commit responses "
+                    "of the fault part) is kept alive and compared again with what the other side sent after every later call and at the end of the run "
+                    "(content-changed-after-later-call:<what>.<field>, with the call sequence); alias probes: the caller's / handler's copy is overwritten in "
+                    "place after the call (socket: must be independent; in process: sharing is reported, except for SubmitTx which must be a copy); invalid-UTF-8 operator strings through peers.NewPeer (regression input of b2c4118, NewPeer compared with the model's "
                     "new_peer; a Peer literal as control); (3) every method (commit, snapshot, restore, state, submit) under every 1- and 2-fault prefix, "
                     "triple faults, listener down, killed connection, application never started, handler errors (also with an empty message) and nil "
                     "replies (regression inputs of the repaired findings ebb9c0a / faf0201), plus random plans: result class, connections accepted and handler deliveries compared with the model. non-trivial = a call "
